@@ -3,6 +3,7 @@
 checks named on the command line as NAME=C01,C02), undo it, and record the outcome in seeded/<name>/result.json."""
 import json, os, subprocess, sys, time
 SEED = "/verif/seeded"
+VERIF = os.environ.get("SWEEP_VERIF", "/verif")    # the harness / spec to run (a snapshot copy, so that /verif can be edited meanwhile)
 REPO = os.environ.get("SWEEP_REPO", "/repo")      # a scratch worktree can be swept instead of /repo (TUCAN_REPO is passed on)
 only = [a for a in sys.argv[1:] if "=" not in a]
 extra = dict(a.split("=") for a in sys.argv[1:] if "=" in a)
@@ -19,7 +20,7 @@ for name in sorted(os.listdir(SEED)):
     try:
         for p in props:
             t = time.time()
-            r = sh("/venv/bin/python", "harness/check.py", "--property", p, "--tier", "quick", cwd="/verif", env=dict(os.environ, TUCAN_REPO=REPO))
+            r = sh("/venv/bin/python", "harness/check.py", "--property", p, "--tier", "quick", cwd=VERIF, env=dict(os.environ, TUCAN_REPO=REPO))
             viol = [l for l in r.stdout.splitlines() if l.startswith("VIOLATION")]
             res[p] = {"rc": r.returncode, "violations": len(viol), "first": viol[0][:240] if viol else "", "wall_s": round(time.time() - t)}
             print(name, p, "rc=%d" % r.returncode, (viol[0][:150] if viol else r.stdout.strip().splitlines()[-1][:150] if r.stdout.strip() else ""), flush=True)
